@@ -143,6 +143,9 @@ def setup_config(
             store_p = os.path.join(load_dir, str(act), "traj.txt")
             if not os.path.isfile(store_p):
                 return None
+
+        # drop data rows of a step whose restart file was never written:
+        clean_data_file(config)
     else:
         # no 'current' in toml, start from step 0.
         size = len(config["simulation"]["interfaces"])
@@ -283,6 +286,37 @@ def check_config(config: dict) -> None:
                         + " settings of one of the engines in"
                         + " 'infretis.mdp'!"
                     )
+
+
+def clean_data_file(config: dict) -> None:
+    """Remove data rows that were written after the restart file.
+
+    The data row of a replaced path is appended before the restart file
+    is rewritten. If the run died in between, the restart file still lists
+    that path as active, the step is redone after the restart and the row
+    would be written a second time. Rows of still active paths (and a torn
+    last row) are therefore dropped here.
+
+    Args
+        config: the configuration dictionary
+    """
+    data_file = config["output"].get("data_file")
+    if not data_file or not os.path.isfile(data_file):
+        return
+    active = {str(i) for i in config["current"]["active"]}
+    with open(data_file, encoding="utf-8") as read:
+        lines = read.readlines()
+    keep = []
+    for line in lines:
+        spl = line.split()
+        if not line.startswith("#"):
+            if not line.endswith("\n") or (spl and spl[0] in active):
+                continue
+        keep.append(line)
+    if keep != lines:
+        with open(data_file + ".tmp", "w", encoding="utf-8") as write:
+            write.writelines(keep)
+        os.replace(data_file + ".tmp", data_file)
 
 
 def write_header(config: dict) -> None:
